@@ -140,3 +140,23 @@ def e2eExpected (toks : List String) : Option String := do
   pure (" ".intercalate out.toList)
 
 end Fp.Driver
+
+namespace Fp.Driver
+
+def splitGroups (toks : List String) : List (List String) :=
+  let (acc, cur) := toks.foldl (fun (acc, cur) t => if t == "||" then (acc ++ [cur], []) else (acc, cur ++ [t])) ([], [])
+  acc ++ [cur]
+
+/-- `e2emulti <head> || <client> || ... @@ <observed> || ...`: every client is predicted independently from
+its own scenario and its own observed ClientHello — exactly what attribution (C06) demands. -/
+def e2eMultiExpected (toks : List String) : Option String := do
+  let (op, obs) := splitAt2 toks
+  match splitGroups op with
+  | head :: clients =>
+    let obsG := splitGroups obs
+    if obsG.length != clients.length then none else
+    let outs ← (clients.zip obsG).mapM fun (cl, ob) => e2eExpected (head ++ cl ++ ["@@"] ++ ob)
+    pure (" || ".intercalate outs)
+  | [] => none
+
+end Fp.Driver
